@@ -17,17 +17,22 @@ OwnCellsAll == {[m |-> "own", msg |-> r.id, holder |-> h, signer |-> s, amt |-> 
                   r \in OwnerRows, h \in Holders, s \in Signers, a \in {"na", "zero", "small", "whole", "over"}, sc \in {"home", "alt", "decoy"}}
 OwnCells  == {c \in OwnCellsAll : c.amt \in AmountsOf(Row(c.msg)) /\ c.scope \in ScopesOf(Row(c.msg))}
 (* des = the contract the statement designates for the variant (tells the harness which cell is the non-vacuity reference) *)
-PrivCells == {[m |-> "priv", v |-> x.v, chain |-> c, sender |-> s, des |-> Designated(x.cls)] : x \in Variants, c \in Chains, s \in Senders}
-KillCells == {[m |-> "kill", sender |-> s] : s \in KillSenders}
+PrivCellsAll == {[m |-> "priv", v |-> x.v, chain |-> c, sender |-> s, des |-> Designated(x.cls), pay |-> p] :
+                   x \in Variants, c \in Chains, s \in Senders, p \in {"na", "caller", "designated", "third"}}
+PrivCells == {c \in PrivCellsAll : c.pay \in PaysOf(c.v)}
+OpenCells == {[m |-> "open", msg |-> x, signer |-> s, hole |-> h] : x \in OpenMsgs, s \in OpenSigners, h \in BOOLEAN}
+KillCells == {[m |-> "kill", adm |-> a, sender |-> s] : a \in AdminStates, s \in KillSenders}
 
 ExecRows    == {r \in Rows : r.exec}
-ProdsOf(r)  == IF r.pk = "vault" /\ r.px = IO THEN {"oracle", "fixed"} ELSE {"na"}
+ProdsOf(r)  == IF r.pk = "vault" /\ r.px = IO THEN {"oracle", "fixed"} ELSE IF r.id \in CrossRows THEN {"na", "cross"} ELSE {"na"}
 RolesOf(r)  == IF r.pk \in {"vault", "borrow", "extliq", "bid"} THEN IO ELSE IF r.pk \in {"lend", "stable"} THEN I ELSE {}
 (* rows outside the vault / locker / lend handlers are only constrained by the price clause: no breaker / shutdown axis *)
 PriceOnly(r) == r.pk \in {"extliq", "bid"}
 CtlCells  == {[m |-> "ctl", h |-> r.id, app |-> r.app, prod |-> p, breaker |-> b, esm |-> e, off |-> o, pm |-> pm] :
-                 r \in ExecRows, p \in Products, b \in BOOLEAN, e \in EsmStates, o \in SUBSET IO, pm \in PriceModes}
-CtlCellsOK == {c \in CtlCells : c.prod \in ProdsOf(Row(c.h)) /\ c.off \subseteq RolesOf(Row(c.h)) /\ (c.pm = "na" <=> c.off = {})
+                 r \in ExecRows, p \in Products, b \in BOOLEAN, e \in EsmStates, o \in SUBSET Roles4, pm \in PriceModes}
+(* a cross-pool position has four price roles: each is switched off separately *)
+OffOK(c) == IF c.prod = "cross" THEN c.off \subseteq Roles4 /\ Cardinality(c.off) <= 1 ELSE c.off \subseteq RolesOf(Row(c.h))
+CtlCellsOK == {c \in CtlCells : c.prod \in ProdsOf(Row(c.h)) /\ OffOK(c) /\ (c.pm = "na" <=> c.off = {})
                                  /\ (PriceOnly(Row(c.h)) => ~c.breaker /\ c.esm = "off")}
 HookCells == {[m |-> "hook", hook |-> h, app |-> HookApp(h), breaker |-> b, esm |-> e, off |-> o, pm |-> pm] :
                  h \in Hooks, b \in BOOLEAN, e \in EsmStates, o \in SUBSET I, pm \in PriceModes}
@@ -50,9 +55,10 @@ DoOwn(c) == \E env \in BOOLEAN :
             LET o == OwnerStep(Pos0(c.holder), Row(c.msg), c.signer, env) IN
             /\ (OwnerPredicted(Row(c.msg), c.holder, c.signer, c.amt, c.scope) => env)        \* env only matters for the unpredicted cells
             /\ cell' = c /\ res' = [ok |-> o.ok] /\ st' = [st EXCEPT !.pos = o.pos]
+DoOpen(c) == cell' = c /\ res' = [ok |-> TRUE] /\ st' = [st EXCEPT !.ver = st.ver + 1]      \* touches nobody's position: st.pos unchanged
 DoPriv(c) == LET ok == ImplPrivOk(c.v, c.chain, c.sender) IN
             /\ cell' = c /\ res' = [ok |-> ok] /\ st' = IF ok THEN [st EXCEPT !.ver = st.ver + 1] ELSE st
-DoKill(c) == LET ok == ImplKillOk(c.sender) IN
+DoKill(c) == LET ok == ImplKillOk(c.adm, c.sender) IN
             /\ cell' = c /\ res' = [ok |-> ok] /\ st' = IF ok THEN [st EXCEPT !.ver = st.ver + 1] ELSE st
 DoCtl(c) == LET o == Step(st, Row(c.h), c.prod, CtlOf(c)) IN
             /\ cell' = c /\ res' = [ok |-> o.ok] /\ st' = o.st
@@ -64,6 +70,7 @@ DoAuc(c) == LET frozen == ImplAucFrozen(c.hook, c.off) IN
 
 Next == /\ cell.m = "init"
         /\ \/ \E c \in OwnCells : DoOwn(c) /\ Out(c)
+           \/ \E c \in OpenCells : DoOpen(c) /\ Out(c)
            \/ \E c \in PrivCells : DoPriv(c) /\ Out(c)
            \/ \E c \in KillCells : DoKill(c) /\ Out(c)
            \/ \E c \in CtlCellsOK : DoCtl(c) /\ Out(c)
@@ -79,14 +86,16 @@ Tables ==
   /\ \A x, y \in Variants : x.v = y.v => x = y
   /\ \A r \in Rows : ConstrainedC12(r) \/ ConstrainedC14(r) \/ r \in Unconstrained      \* every row classified
   /\ \A r \in Rows : ConstrainedC14(r) => \E c \in CtlCellsOK : c.h = r.id /\ CtlOf(c) = CtlOff   \* non-vacuity reference exists
+  /\ OpenMsgs \subseteq Ids
   /\ \A r \in OwnerRows : \E c \in OwnCells : c.msg = r.id /\ c.signer = c.holder
 
 (* ---------------- design-level results (the model as coded against the property) ---------------- *)
 RejectedChangesNothingM == ~res.ok => st.ver = 0 /\ st.pos.ver = 0
 DesignC12 ==
   /\ cell.m = "own"  => OwnerOnly(Row(cell.msg), cell.holder, cell.signer, res.ok) /\ (cell.signer # cell.holder => st.pos = Pos0(cell.holder))
+  /\ cell.m = "open" => st.pos = St0.pos
   /\ cell.m = "priv" => PrivilegedOnlyDesignated(cell.chain, cell.sender, res.ok) /\ PrivilegedRole(cell.v, cell.chain, cell.sender, res.ok)
-  /\ cell.m = "kill" => KillOnlyAdmin(cell.sender, res.ok)
+  /\ cell.m = "kill" => KillOnlyAdmin(cell.adm, cell.sender, res.ok)
 DesignC14 ==
   /\ cell.m = "ctl" => (MustReject(Row(cell.h), cell.prod, CtlOf(cell)) => ~res.ok)
   /\ cell.m = "auc"  => (AucPriceReq(cell.hook, cell.off) => ~res.ok)
